@@ -194,6 +194,10 @@ func genCli(seed uint64, n int, tier string, emit func(string, []string, any)) {
 		case 2:
 			np = 2
 		}
+		unwritable := i%5 == 4
+		if unwritable {
+			np = 0 // a project that would succeed: the failure is the write itself
+		}
 		p, applied := genProject(cr, np)
 		kind := kinds[i%len(kinds)]
 		in := cliIn{Project: p, Kind: kind}
@@ -203,10 +207,15 @@ func genCli(seed uint64, n int, tier string, emit func(string, []string, any)) {
 		default:
 			in.Cmd = []string{"generate", kind, "--no-banner", "-c", "./gleece.config.json"}
 		}
-		if cr.Chance(1, 10) {
+		if unwritable {
+			p.Config.Enforce = false
+			in.Project = p
+			in.Break = "routes-unwritable"
+			if kind == "spec" || (kind == "spec-and-routes" && cr.Bool()) {
+				in.Break = "spec-unwritable"
+			}
+		} else if cr.Chance(1, 10) {
 			in.Break = rng.Pick(cr, []string{"config-missing", "config-malformed"})
-		} else if cr.Chance(1, 6) {
-			in.Break = rng.Pick(cr, []string{"routes-unwritable", "spec-unwritable"})
 		}
 		tags := []string{"cmd:" + kind}
 		if len(applied) > 0 {
